@@ -1,0 +1,7 @@
+//go:build verif
+
+package maintenance
+
+// VerifC18GetSQLFile exposes getSQLFile (the statement splitter of the embedded migration scripts) to the
+// verification harness. No behaviour.
+var VerifC18GetSQLFile = getSQLFile
